@@ -903,6 +903,67 @@ def inverted_relation_rule(ctx, rid: str, pid: str, floor: int = 0):
                            f'in the loops looks at `{d}` to notice', m.rel, st.lineno)
     return n
 
+
+def coordinate_index_rule(ctx, rid: str, pid: str, floor: int = 0):
+    """A coordinate of a caller's qubit that becomes a position (container index, position in a payload) is checked for sign first."""
+    repo = ctx.repo
+    ctx.rule(rid, 'coordinates are not positions until checked: where the .x of the qubits of an operation handed in by the caller (a loop / comprehension over <op>.qubits or <ps>.qubits) '
+             'is used as the index of a store into a container, or collected as the list of positions of a payload entry, the function compares the coordinate with 0 (to refuse '
+             'negative ones) - Python wraps a negative index to the other end, so LineQubit(-1) silently becomes the last position', floor=floor, style='RG')
+    n = 0
+    for m, ci, fn in _functions(repo, pid):
+        # names bound by iterating over something ending in .qubits, or over a local bound to such (through cast(...))
+        qsrc = set()
+        for a in ast.walk(fn):
+            if isinstance(a, ast.Assign) and len(a.targets) == 1 and isinstance(a.targets[0], ast.Name) and any(isinstance(x, ast.Attribute) and x.attr == 'qubits' for x in ast.walk(a.value)):
+                qsrc.add(a.targets[0].id)
+
+        def over_qubits(it):
+            return any(isinstance(x, ast.Attribute) and x.attr == 'qubits' for x in ast.walk(it)) or any(isinstance(x, ast.Name) and x.id in qsrc for x in ast.walk(it))
+        qvars = set()
+        for x in ast.walk(fn):
+            if isinstance(x, ast.For) and isinstance(x.target, ast.Name) and over_qubits(x.iter):
+                qvars.add(x.target.id)
+            if isinstance(x, ast.comprehension) and isinstance(x.target, ast.Name) and over_qubits(x.iter):
+                qvars.add(x.target.id)
+        if not qvars:
+            continue
+
+        def is_coord(e):
+            return isinstance(e, ast.Attribute) and e.attr == 'x' and isinstance(e.value, ast.Name) and e.value.id in qvars
+        uses = []
+        for x in ast.walk(fn):
+            if isinstance(x, ast.Subscript) and isinstance(x.ctx, ast.Store) and is_coord(x.slice):
+                uses.append(x)
+            if isinstance(x, ast.ListComp) and is_coord(x.elt):
+                uses.append(x)
+        if not uses:
+            continue
+        # local names holding the collected coordinates
+        held = {a.targets[0].id for a in ast.walk(fn) if isinstance(a, ast.Assign) and len(a.targets) == 1 and isinstance(a.targets[0], ast.Name)
+                and isinstance(a.value, ast.ListComp) and is_coord(a.value.elt)}
+        checked = False
+        for c in ast.walk(fn):
+            if isinstance(c, ast.Compare) and len(c.ops) == 1 and isinstance(c.ops[0], (ast.Lt, ast.GtE, ast.Gt, ast.LtE)):
+                sides = [c.left, c.comparators[0]]
+                zero = any(isinstance(s_, ast.Constant) and s_.value == 0 for s_ in sides)
+                coord = any(is_coord(s_) or (isinstance(s_, ast.Name)) for s_ in sides if not isinstance(s_, ast.Constant))
+                if zero and coord:
+                    # the compared name is the coordinate itself or an element of a held list
+                    other = [s_ for s_ in sides if not isinstance(s_, ast.Constant)][0]
+                    if is_coord(other):
+                        checked = True
+                    elif isinstance(other, ast.Name):
+                        # `idx < 0 for idx in qubit_idx`
+                        for g in ast.walk(fn):
+                            if isinstance(g, ast.comprehension) and isinstance(g.target, ast.Name) and g.target.id == other.id and isinstance(g.iter, ast.Name) and g.iter.id in held:
+                                checked = True
+        n += 1
+        ctx.ob(rid, f'{m.name}.{(ci.name + ".") if ci else ""}{fn.name}:coordinate-as-position', checked, '' if checked else
+               f'`{ast.unparse(uses[0])[:70]}` turns the coordinate of a qubit of the caller into a position, and the function never compares it with 0: a negative coordinate wraps around',
+               m.rel, uses[0].lineno)
+    return n
+
 FLOORS = {   # (z_fwd, z_drop, z_pair): about two thirds of the instances confirmed on the tree the rules were armed on
     'C01': (7, 40, 11),
     'C02': (4, 55, 8),
@@ -940,11 +1001,12 @@ def apply(ctx, pid: str, only=None):
         'z_memo': lambda: memo_invalidation_rule(ctx, f'{pid}.z_memo', pid, floor=0),
         'z_first': lambda: emptiness_belief_rule(ctx, f'{pid}.z_first', pid, floor=0),
         'z_inv': lambda: inverted_relation_rule(ctx, f'{pid}.z_inv', pid, floor=0),
+        'z_coord': lambda: coordinate_index_rule(ctx, f'{pid}.z_coord', pid, floor=0),
     }
     out = {}
     for k, f in rules.items():
         if only is None or k in only:
             out[k] = f()
     ctx.decided.append(f'{pid}.z_* general rules on the functions attributed to this property: sibling calls forward the same parameters (z_fwd), a wrapper does not swallow an option its '
-                       'callee accepts (z_drop), positional pairing only over ordered collections (z_pair), presence of a key is not tested by truthiness of the value (z_get), constructors do not mutate their arguments (z_ctor), optional option bags are inputs only (z_opt), generators are consumed once (z_gen), a lazily memoised field is dropped wherever its source fields are reassigned (z_memo), x[0] / x[-1] only where the function\'s own emptiness test protects it (z_first), a back-mapping built in a nested loop does not drop owners (z_inv)')
+                       'callee accepts (z_drop), positional pairing only over ordered collections (z_pair), presence of a key is not tested by truthiness of the value (z_get), constructors do not mutate their arguments (z_ctor), optional option bags are inputs only (z_opt), generators are consumed once (z_gen), a lazily memoised field is dropped wherever its source fields are reassigned (z_memo), x[0] / x[-1] only where the function\'s own emptiness test protects it (z_first), a back-mapping built in a nested loop does not drop owners (z_inv), a qubit coordinate becomes a position only after a sign check (z_coord)')
     return out
